@@ -3,6 +3,7 @@ package harness
 import (
 	"bytes"
 	"fmt"
+	"sort"
 
 	"github.com/syndtr/goleveldb/leveldb"
 	"github.com/syndtr/goleveldb/leveldb/opt"
@@ -148,4 +149,97 @@ func CheckLSM(stor *vstor.Stor, st leveldb.VerifState, cfg Config) (viol []strin
 		}
 	}
 	return
+}
+
+// Features describes layout traits of the current DB state that matter to compaction and
+// recovery logic; the fault and crash enumerations use them to pick histories that reach
+// deep, tombstone-rich, multi-table layouts (start exploration from non-initial states).
+func (w *World) Features() []string {
+	st := w.DB.VerifState()
+	o := w.Cfg.Options()
+	icmp := leveldb.VerifIComparerFull(o.Comparer)
+	ro := &opt.Options{Comparer: icmp, Strict: opt.NoStrict, DisableBlockCache: true, DisableBufferPool: true}
+	type ent struct {
+		level int
+		del   bool
+	}
+	per := map[string][]ent{}
+	tablesAt := map[int]int{}
+	multiEntry := false
+	for _, t := range st.Tables {
+		tablesAt[t.Level]++
+		data := w.Stor.Data(storage.FileDesc{Type: storage.TypeTable, Num: t.Num})
+		tr, err := table.NewReader(bytes.NewReader(data), int64(len(data)), storage.FileDesc{Type: storage.TypeTable, Num: t.Num}, nil, nil, ro)
+		if err != nil {
+			continue
+		}
+		it := tr.NewIterator(nil, nil)
+		n := 0
+		for it.Next() {
+			if u, _, del, ok := leveldb.VerifParseIKey(it.Key()); ok {
+				per[string(u)] = append(per[string(u)], ent{t.Level, del})
+				n++
+			}
+		}
+		if n > 1 {
+			multiEntry = true
+		}
+		it.Release()
+		tr.Release()
+	}
+	f := map[string]bool{}
+	maxLevel := 0
+	for l, n := range tablesAt {
+		if l > maxLevel {
+			maxLevel = l
+		}
+		if l >= 1 && n >= 2 {
+			f[fmt.Sprintf("multi-table-L%d", min(l, 3))] = true
+		}
+	}
+	if maxLevel >= 2 {
+		f["depth>=2"] = true
+	}
+	if maxLevel >= 3 {
+		f["depth>=3"] = true
+	}
+	if multiEntry {
+		f["multi-entry-table"] = true
+	}
+	gapKeys := 0
+	for _, es := range per {
+		for _, a := range es {
+			if !a.del {
+				continue
+			}
+			f["tombstone-in-table"] = true
+			for _, b := range es {
+				if !b.del && b.level >= a.level+1 {
+					f["tombstone-over-value"] = true
+				}
+				if !b.del && b.level >= a.level+2 {
+					f["tombstone-2-levels-over-value"] = true
+					gapKeys++
+					if tablesAt[b.level] >= 2 {
+						f["tombstone-2-levels-over-value-in-multi-table-level"] = true
+					}
+				}
+			}
+		}
+	}
+	if gapKeys >= 2 {
+		f["two-keys-tombstone-2-levels-over-value"] = true
+	}
+	if st.FrozenLen >= 0 {
+		f["frozen-pending"] = true
+	}
+	if len(st.Snapshots) > 0 {
+		f["live-snapshot"] = true
+	}
+	var out []string
+	for k := range f {
+		out = append(out, k)
+	}
+	sort.Strings(out)
+	return out
 }
